@@ -82,6 +82,12 @@ class NonTermination(Exception):
     """Raised by the guards below when a ppci call does not come to an end."""
 
 
+# Second guard besides the iteration budget of Driver.Guarded: seconds of *CPU time of this
+# process* (ITIMER_VIRTUAL, so machine load or a paused VM cannot trip it) one graph may take;
+# the analyses need about a millisecond.
+CPU_LIMIT = 4
+
+
 def _alarm(signum, frame):
     raise NonTermination()
 
@@ -292,7 +298,7 @@ def record(drv, n, edges, entry, exits, what=ALL, name=None):
     edges = [tuple(e) for e in edges]
     name = name or graph_name(n, edges, entry)
     obs = []
-    signal.setitimer(signal.ITIMER_REAL, 60)
+    signal.setitimer(signal.ITIMER_VIRTUAL, CPU_LIMIT)
     try:
         try:
             if set(what) & {"dom", "dom-", "df", "reach"}:
@@ -304,10 +310,10 @@ def record(drv, n, edges, entry, exits, what=ALL, name=None):
                 g, nodes = drv.build(n, edges, entry, x)
                 obs += observe_pdom(drv, g, nodes, n, x)
         except NonTermination:
-            # the wall-clock guard fired outside attempt(): judged as a raised computation
+            # the CPU-time guard fired outside attempt(): judged as a raised computation
             obs.append({"cl": "idom", "impl": "harness-timeout", "idom": {"ok": False, "exc": "NonTermination"}})
     finally:
-        signal.setitimer(signal.ITIMER_REAL, 0)
+        signal.setitimer(signal.ITIMER_VIRTUAL, 0)
     return finish_record(n, edges, entry, exits, obs, name)
 
 
@@ -322,12 +328,34 @@ def finish_record(n, edges, entry, exits, obs, name):
 _DRV = None
 
 
+def _worker_init():
+    """Pool worker: bound the address space so that a runaway ppci call ends in MemoryError
+    (recorded as the outcome) instead of the worker being killed."""
+    import resource
+
+    resource.setrlimit(resource.RLIMIT_AS, (3 << 30, 3 << 30))
+
+
 def _record_chunk(specs):
     global _DRV
     if _DRV is None:
         _DRV = Driver()
-        signal.signal(signal.SIGALRM, _alarm)
+        signal.signal(signal.SIGVTALRM, _alarm)
     return [record(_DRV, *sp) for sp in specs]
+
+
+def _pool_map(fn, items, procs=8):
+    """map over worker processes; a worker that dies is a machinery failure, not a hang."""
+    import multiprocessing
+    from concurrent.futures import ProcessPoolExecutor
+    from concurrent.futures.process import BrokenProcessPool
+
+    try:
+        with ProcessPoolExecutor(procs, mp_context=multiprocessing.get_context("fork"),
+                                 initializer=_worker_init) as pool:
+            return list(pool.map(fn, items))
+    except BrokenProcessPool:
+        raise tlcmod.MachineryError("C25: a recording worker process died")
 
 
 def record_many(specs, procs=8):
@@ -335,12 +363,8 @@ def record_many(specs, procs=8):
     result does not depend on the number of processes)."""
     if len(specs) < 400:
         return _record_chunk(specs)
-    import multiprocessing
-
     chunks = [specs[k:k + 500] for k in range(0, len(specs), 500)]
-    with multiprocessing.get_context("fork").Pool(procs) as pool:
-        out = pool.map(_record_chunk, chunks, chunksize=1)
-    return [r for ch in out for r in ch]
+    return [r for ch in _pool_map(_record_chunk, chunks, procs) for r in ch]
 
 
 def obs_key(o, name, entrypred, edges):
@@ -514,12 +538,9 @@ def random_specs(ctx, count, lo, hi):
 
 
 def five_node_specs(ctx):
-    import multiprocessing
-
     nb = 20
     step = 1 << 14
-    with multiprocessing.get_context("fork").Pool(8) as pool:
-        parts = pool.map(_canon_chunk, [(5, lo, lo + step) for lo in range(0, 1 << nb, step)], chunksize=1)
+    parts = _pool_map(_canon_chunk, [(5, lo, lo + step) for lo in range(0, 1 << nb, step)])
     specs = []
     for edges in (e for part in parts for e in part):
         lm = ctx.rng.randrange(0, 32) if ctx.rng.random() < 0.5 else 0
@@ -580,7 +601,7 @@ def ir_records(drv, names):
             edges = sorted((a, idxmap[m]) for a in range(1, n + 1) for m in g.successors(nodes[a]))
             entry, exit_ = idxmap[g.entry_node], idxmap[g.exit_node]
             g.nodes = drv.Guarded(g.nodes, 60 * n * n + 200)
-            signal.setitimer(signal.ITIMER_REAL, 120)
+            signal.setitimer(signal.ITIMER_VIRTUAL, CPU_LIMIT)
             try:
                 try:
                     obs = observe_cfg(drv, g, nodes, n, ALL) + observe_pdom(drv, g, nodes, n, exit_)
@@ -603,7 +624,7 @@ def ir_records(drv, names):
                 except NonTermination:
                     obs = [{"cl": "idom", "impl": "harness-timeout", "idom": {"ok": False, "exc": "NonTermination"}}]
             finally:
-                signal.setitimer(signal.ITIMER_REAL, 0)
+                signal.setitimer(signal.ITIMER_VIRTUAL, 0)
             recs.append(finish_record(n, edges, entry, [exit_], obs, name))
     return recs
 
@@ -666,7 +687,7 @@ class Engine:
 
     def run(self, ctx):
         thorough = ctx.tier == "thorough"
-        signal.signal(signal.SIGALRM, _alarm)
+        signal.signal(signal.SIGVTALRM, _alarm)
         drv = Driver()
         ctx.rule("M: Dom_MC enumerates every digraph on <=3 nodes (thorough: also 4 nodes; machines without self loops, laws "
                  "with) with all nodes reachable from the root and checks the laws of Dom.tla plus the algorithm machines (fixed point, "
